@@ -125,7 +125,14 @@ impl Property for C05 {
             .filter(|id| used.contains(id) || scenario % 2 == 0 || rng.bool())
             .collect();
         let mut st = gen_state_in_bounds(rng, &inst, Some(&give), regime);
-        // dependency sources must have values even when "unused"
+        // values for ids the instance does not define are legal in a state and must be kept
+        if rng.chance(1, 5) {
+            let extra = 7_000_000 + rng.below(100);
+            if !inst.decision_variables.iter().any(|v| v.id == extra) {
+                st.entries.insert(extra, value(rng, regime));
+                mon.facet("state-has-undefined-extra-id");
+            }
+        }
         let mut sname = "in-bound";
         match scenario {
             5 | 6 => {
